@@ -428,7 +428,7 @@ MSG_RULE = ("random well-typed messages of every checked-in generated type witho
 DEC_RULE = ("encodings of random messages (picobuf's and the reference encoder's) closed under meaning-preserving rewrites "
             "(permute, pack/unpack/mixed, non-minimal varints, 32-bit kinds in varints with bits above bit 31, an earlier occurrence of a singular scalar, split sub-message, inject unknown fields/groups) for the valid stream; "
             "half of the Unmarshal calls come right after a rejected input of the same type; "
-            "prefixes, byte/token corruptions, short token strings and random bytes for the malformed stream; non-trivial = non-empty input")
+            "prefixes, byte/token corruptions (also inside intact sub-messages: lengths cut short or beyond the parent), short token strings and random bytes for the malformed stream; non-trivial = non-empty input")
 
 
 def nontrivial_any(r):
@@ -576,8 +576,13 @@ def _c19_unmarshal_errors(ctx):
     """Whole messages on the malformed stream: the error Unmarshal returns names the field the model's decoder fails at, with
     the same class (wrong wire type / unparsable value / ...). The model's fail sites carry the field by construction."""
     prop_bad, tie_bad, total, distinct, hist = [], [], 0, set(), {"unmarshal_error": {}}
-    for sname, args in (("decb", ["decb", ctx.seed + 9, _n(ctx, 6000, 60000)]), ("deep", ["deep", ctx.seed])):
-        for r in parse_rows(E.run_suite(ctx, sname + "_c19", args)):
+    runs = [("decb", ["decb", ctx.seed + 9, _n(ctx, 6000, 60000)], None), ("deep", ["deep", ctx.seed], None)]
+    fres = fresh_driver(ctx)
+    if fres.get("driver"):
+        # freshly generated types: recursion and chains of sub-messages put known fields at every depth
+        runs.append(("decbf", ["decb", ctx.seed + 29, _n(ctx, 4000, 30000), ".proto:"], fres["driver"]))
+    for sname, args, drv in runs:
+        for r in parse_rows(E.run_suite(ctx, sname + "_c19", args, driver=drv)):
             if r["suite"] != "dec":
                 continue
             total += 1
@@ -610,7 +615,7 @@ def check_C19(ctx):
         suites=lambda c: [("fnstr", ["fnstr", c.seed, _n(c, 3000, 200000)]), ("readers", ["readers", c.seed, _n(c, 1500, 20000)])],
         extra=_c19_unmarshal_errors,
         rule="FieldNumber.String on boundaries (0, +-10^k+-1, Min/MaxInt32) and random int32 against strconv.Itoa; reader grid compares (field, class) of every error; "
-             "whole messages: 6000 malformed inputs (truncations, wrong wire types, damaged lengths and groups) and the deep-nesting inputs through Unmarshal - the returned error's "
+             "whole messages: 6000 malformed inputs for the checked-in types and 4000 for freshly generated ones (truncations, wrong wire types, damaged lengths at every depth, groups) and the deep-nesting inputs through Unmarshal - the returned error's "
              "field number and class equal the decoder model's, and the last eight errors returned keep their text after every later call; non-trivial = non-zero"))
 
 
